@@ -4,12 +4,17 @@ engines/c01.py and engines/c02.py call
     engines.scalar.run_part(ctx, which)        # which in ("C01", "C02")
 
 which is self-contained:
-  1. regenerates coq/Gen/ScalarGen.v + _work/gen/scalar_table.json from the CURRENT tree
-     (translate/gen_scalar.py, tie of type T),
+  1. regenerates coq/Gen/ScalarGen.v + coq/Gen/ScalarInventory.v + _work/gen/scalar_table.json from
+     the CURRENT tree (translate/gen_scalar.py, tie of type T).  engines/c01.py and c02.py call
+     regenerate() BEFORE ctx.prove() as well, so that every theorem that depends on Gen/ScalarGen.vo is
+     checked against this run's formulas; the inventory (every file / macro of devices/naive/ops is
+     translated or on a reviewed list, obligation Props/Properties_C01_inventory.v) is also reported here,
   2. re-checks Props/Properties_<which>_scalar.v against the regenerated definitions (forced
      recompile, Print Assumptions parsed),
   3. runs harness/scalar_drv.cc (real Device::<op>_fw / _bw entry points, devices::Naive and
-     devices::Eigen) on a grid of points and compares
+     devices::Eigen; every operand a vector of 21 = 16k+5 equal elements, so that Eigen's packet body
+     AND its scalar tail run: element 0 is judged, and so is the element deviating most from it
+     whenever the 21 results are not bit-identical) on a grid of points and compares
        forward  (C02)  against the DOCUMENTED function evaluated in double (independent of the
                        translator) and against the generated formula evaluated in double
                        (validation of the translator),
@@ -21,9 +26,21 @@ which is self-contained:
   4. records everything under ctx.cov["scalar"][which] and reports through ctx.violation.
 
 Tolerances (all "ulp" are float32 ulps):
-  forward: |impl - exact| <= 4 ulp(max(1, |exact|)).  The kernels round at most a handful of
-    times; the stabilised formulas lose relative but not absolute accuracy near 0 (e.g.
-    log(1 + e^-20) evaluates to 0), which is exactly what the property text allows.
+  forward, numerically stabilised functions (softplus, sigmoid, and the softmax family below):
+    |impl - exact| <= 4 ulp(max(1, |exact|)) -- the property text; the stabilised formulas lose
+    relative but not absolute accuracy near 0 (e.g. log(1 + e^-20) evaluates to 0).
+  forward, every other elementwise function ("up to float32 rounding of the quantities entering
+    the defining formula"): RELATIVE, |impl - exact| <= PLAIN_ULPS = 8 ulp(|exact|) (libm is within
+    1 ulp; Eigen documents its packet exp/log/sin/cos/tanh as accurate to a couple of ulp; pown makes up
+    to 2 log2|k| products and a quotient; measured maximum on the grid: 3.895 ulp, Eigen's packet exp at
+    x = 88 -- recorded on every run as max_fw_rel_err_ulp), the grid points and constants being exact
+    float32 values; plus the
+    propagated rounding of the one intermediate quantity of a defining formula that is rounded to
+    float32 before a cancelling operation: elu = k (e^x - 1) on x < 0 adds 2 |k| ulp(e^x).
+    Underflow: when |exact| is below the smallest normal float32 number 2^-126 the result is only
+    required to lie within 2^-126 of it (gradual underflow and flush-to-zero are both accepted: libm
+    returns the denormal, Eigen's packet exp returns 0 for x < -87.34); such results and the flushed
+    ones are counted in the evidence (underflow_range_results, flushed_to_zero).
   softmax family on n logits: the defining formula x_i - logsumexp(x) subtracts two numbers of
     magnitude max|x_j| that were each rounded to float32, so the tolerance is
     (4 + n) ulp(max(1, |exact|, max_j |x_j|)); the strict bound 4 ulp(max(1,|exact|)) is measured as
@@ -239,6 +256,45 @@ SOFTMAX_LISTS = [
 ]
 
 
+def parse_out(o):
+    """One result line of harness/scalar_drv.cc -> (head, tail, j, disagree): the values of element 0,
+    the values of the most deviating element j of the 21-vector (None when all elements are
+    bit-identical) and the driver's own verdict that the two differ beyond rounding.  head is None
+    when the line does not consist of numbers (err, argerr, <no output>, ...)."""
+    toks = o.split()
+    disagree = bool(toks) and toks[-1] == "!disagree"
+    if disagree:
+        toks = toks[:-1]
+    tail = j = None
+    try:
+        if "!tail" in toks:
+            p = toks.index("!tail")
+            j = int(toks[p + 1])
+            tail = [float(t) for t in toks[p + 2:]]
+            toks = toks[:p]
+        head = [float(t) for t in toks]
+    except (ValueError, IndexError):
+        return None, None, None, disagree
+    if not head or (tail is not None and len(tail) != len(head)):
+        return None, None, None, disagree
+    return head, tail, j, disagree
+
+
+# plain elementwise functions are judged relative to |exact|; these are the stabilised ones of the
+# property text (judged against max(1, |exact|))
+STABILISED = ("sigmoid", "softplus")
+# bound of the plain elementwise functions in float32 ulps of |exact|: libm rounds within 1 ulp, Eigen's
+# packet exp/log/sin/cos/tanh are documented as accurate to a couple of ulp, the constants of a formula
+# are rounded once more; the measured maximum (evidence: max_fw_rel_err_ulp) is 3.895 ulp at exp(88) on
+# Eigen, so 4 would leave no margin on a fixed grid point
+PLAIN_ULPS = 8.0
+STABLE_ULPS = 4.0      # stabilised functions: "a few float32 ulps of max(1, |exact|)"
+MIN_NORMAL = 2.0 ** -126
+# D23 is measured on logits of magnitude up to 1e4 that differ by O(1) (SOFTMAX_LISTS and the random
+# lists of generate()); a deviation is attributed to it only within that range
+D23_MAX_LOGIT = 1e4
+
+
 def fd_step(x, keep_sign, rel=2.0 ** -7):
     """power-of-two step so that x +- h are exact float32 and (if asked) keep the sign of x"""
     ax = abs(x)
@@ -256,7 +312,11 @@ class Run:
         self.stats = {"cases": 0, "fw_checked": 0, "bw_checked": 0, "fd_impl_checked": 0, "fd_doc_checked": 0,
                       "tie_fw_checked": 0, "tie_bw_checked": 0, "stable_large_checked": 0,
                       "max_fw_err_ulp": 0.0, "max_fw_err_at": "", "max_bw_rel_err": 0.0, "max_bw_rel_err_at": "",
-                      "max_softmax_strict_err_ulp": 0.0, "max_softmax_strict_err_at": "", "by_kind": {}}
+                      "max_softmax_strict_err_ulp": 0.0, "max_softmax_strict_err_at": "",
+                      "max_fw_rel_err_ulp": 0.0, "max_fw_rel_err_at": "",
+                      "underflow_range_results": 0, "flushed_to_zero": 0, "flushed_to_zero_first": "",
+                      "rows_with_second_element_judged": 0, "packet_tail_disagreements": 0, "packet_tail_disagreement_first": "",
+                      "by_kind": {}}
         self.problems = []   # dicts
         self.zero_findings = []
         self.known = []      # (witness, case, expected, got): re-confirmed instances of registered finding classes
@@ -376,16 +436,33 @@ class Run:
         self.problems.append(dict(prop=prop, desc=desc, case=line, expected=expected, got=got, oracle=oracle,
                                   found=found, **kw))
 
-    def chk_fw(self, line, name, impl, exact, formula, tol_scale=None, tol_ulps=4.0, stable=False):
-        """C02: impl against the documented function; tie: impl against the generated formula"""
+    def chk_fw(self, line, name, impl, exact, formula, tol_scale=None, tol_ulps=None, stable=False, relative=True, extra=0.0):
+        """C02: impl against the documented function; tie: impl against the generated formula.
+        relative=True (plain elementwise functions): tol_ulps ulp(|exact|) + extra, where extra is the
+        propagated float32 rounding of an intermediate quantity of the defining formula;
+        relative=False (stabilised functions): tol_ulps ulp(max(1, |exact|))."""
         st = self.stats
         if exact is None or exact != exact or abs(exact) > FLT_MAX:
             return
+        if tol_ulps is None:
+            tol_ulps = PLAIN_ULPS if relative else STABLE_ULPS
         st["fw_checked"] += 1
         if stable:
             st["stable_large_checked"] += 1
-        scale = max(1.0, abs(exact), tol_scale or 0.0)
-        tol = tol_ulps * ulp32(scale)
+        if relative:
+            scale = max(MIN_NORMAL, abs(exact))
+            what = "|exact|"
+            if 0 < abs(exact) < MIN_NORMAL:
+                st["underflow_range_results"] += 1
+                extra = max(extra, MIN_NORMAL)
+                if impl == 0 and exact != 0:
+                    st["flushed_to_zero"] += 1
+                    if not st["flushed_to_zero_first"]:
+                        st["flushed_to_zero_first"] = "%s -> %s = %r, exact %r" % (line, name, impl, exact)
+        else:
+            scale = max(1.0, abs(exact), tol_scale or 0.0)
+            what = "max(1,|exact|)"
+        tol = tol_ulps * ulp32(scale) + extra
         if impl != impl or abs(impl) == INF:
             self.problem("C02", "%s is not finite" % name, line, exact, impl, "documented function in double (finite result expected)")
             return
@@ -393,9 +470,13 @@ class Run:
         e_ulp = err / ulp32(max(1.0, abs(exact)))
         if tol_scale is None and e_ulp > st["max_fw_err_ulp"]:
             st["max_fw_err_ulp"], st["max_fw_err_at"] = round(e_ulp, 3), line
+        if relative and not extra:
+            r_ulp = err / ulp32(scale)
+            if r_ulp > st["max_fw_rel_err_ulp"]:
+                st["max_fw_rel_err_ulp"], st["max_fw_rel_err_at"] = round(r_ulp, 3), "%s -> %s = %r, exact %r" % (line, name, impl, exact)
         if err > tol:
-            self.problem("C02", "%s deviates from the documented function by %.3g (%.1f ulp of max(1,|exact|); tolerance %.3g)"
-                         % (name, err, e_ulp, tol), line, exact, impl, "documented function in double")
+            self.problem("C02", "%s deviates from the documented function by %.3g (%.1f ulp of %s; tolerance %.3g)"
+                         % (name, err, err / ulp32(scale), what, tol), line, exact, impl, "documented function in double")
         if formula is not None and formula == formula and abs(formula) <= FLT_MAX and self.dev_is_naive(line):
             st["tie_fw_checked"] += 1
             if abs(impl - formula) > tol:
@@ -437,15 +518,43 @@ class Run:
                              line, formula, impl, "generated formula", found=False)
 
     def judge(self, outs):
-        F = self.F
-        vals = []
+        vals, tails = [], []
         for (line, meta), o in zip(self.cases, outs):
-            try:
-                vals.append([float(t) for t in o.split()])
-            except ValueError:
-                vals.append(None)
+            head, tail, j, disagree = parse_out(o)
+            vals.append(head)
+            tails.append(None if tail is None else (j, tail))
+            if disagree and meta["kind"] != "fd":
+                st = self.stats
+                st["packet_tail_disagreements"] += 1
+                if not st["packet_tail_disagreement_first"]:
+                    st["packet_tail_disagreement_first"] = "%s -> %s" % (line, o)
+        self.vals = vals
         i = 0
         n = len(self.cases)
+        while i < n:
+            line, m = self.cases[i]
+            v = vals[i]
+            if v is None and m["kind"] != "fd":
+                self.problem("C02" if self.which == "C02" else "C01", "driver returned `%s`" % (outs[i] if i < len(outs) else "<no output>"),
+                             line, "numbers", outs[i] if i < len(outs) else None, "driver", found=True)
+                i += 1
+                continue
+            used = self.judge_case(i, v, "")
+            if tails[i] is not None and m["kind"] not in ("fd", "lse", "lsm", "sm", "sce"):
+                # the 21 elements of this call are not bit-identical (Eigen: packet body vs scalar tail):
+                # the most deviating element is judged exactly like element 0
+                self.stats["rows_with_second_element_judged"] += 1
+                self.judge_case(i, tails[i][1], " [element %d of 21]" % tails[i][0])
+            i += 1 + used
+
+    def judge_case(self, i, v, tag):
+        """Judge the values v of case i (tag names the element of the 21-vector when it is not element 0).
+        Returns the number of finite-difference rows that follow the case."""
+        F = self.F
+        vals = self.vals
+        line, m = self.cases[i]
+        k = m["kind"]
+        used = 0
 
         def fdq(p, m, h):
             if p is None or m is None:
@@ -459,130 +568,165 @@ class Run:
             except (OverflowError, ValueError, ZeroDivisionError):
                 return None
 
-        while i < n:
-            line, m = self.cases[i]
-            v = vals[i]
-            k = m["kind"]
-            if v is None and k != "fd":
-                self.problem("C02" if self.which == "C02" else "C01", "driver returned `%s`" % (outs[i] if i < len(outs) else "<no output>"),
-                             line, "numbers", outs[i] if i < len(outs) else None, "driver", found=True)
-                i += 1
-                continue
-            if k == "zero":
-                got = v[m["idx"]]
-                if got != got or abs(got - m["true"]) > 1e-6:
-                    self.zero_findings.append({"case": line, "kernel": m["name"], "true_derivative": m["true"], "got": got})
-            elif k == "f1":
-                self.chk_fw(line, m["op"] + "_fw", v[0], DOC1[m["op"]](m["x"]), F("fw_" + m["op"], m["x"]))
-            elif k == "u":
-                op, x, g = m["op"], m["x"], m["gy"]
-                large = abs(x) >= 20 and op in ("sigmoid", "softplus", "tanh")
-                if self.which == "C02":
-                    self.chk_fw(line, op + "_fw", v[0], DOC1[op](x), F("fw_" + op, x), stable=large)
-                else:
-                    fd_impl = None
-                    if abs(x) <= 1e4:
-                        h = fd_step(x, m["keep"])
-                        q = fdq(vals[i + 1], vals[i + 2], h)
-                        fd_impl = None if q is None else g * q
-                        i += 2
-                    d = dfd(DOC1[op], x, m["keep"])
-                    self.chk_bw(line, op + "_bw", v[1], fd_impl, None if d is None else g * d,
-                                F("bw_" + op, x, v[0], g), "x=%r gy=%r" % (x, g))
-            elif k == "c":
-                op, x, kk, g = m["op"], m["x"], m["k"], m["gy"]
-                if self.which == "C02":
-                    self.chk_fw(line, op + "_fw", v[0], DOCC[op](x, kk), F("fw_" + op, x, kk),
-                                stable=(abs(x) >= 20 and op in ("elu", "prelu")))
-                else:
-                    fd_impl = None
-                    if abs(x) <= 1e4:
-                        h = fd_step(x, m["keep"])
-                        q = fdq(vals[i + 1], vals[i + 2], h)
-                        fd_impl = None if q is None else g * q
-                        i += 2
-                    d = dfd(lambda t: DOCC[op](t, kk), x, m["keep"])
-                    self.chk_bw(line, op + "_bw", v[1], fd_impl, None if d is None else g * d,
-                                F("bw_" + op, x, v[0], g, kk), "x=%r k=%r gy=%r" % (x, kk, g))
-            elif k == "s":
-                self.chk_fw(line, m["op"] + "_fw", v[0], DOCS[m["op"]](m["x"], m["k"]), F("fw_" + m["op"], m["x"], m["k"]))
-            elif k == "b":
-                op, a, b, g = m["op"], m["a"], m["b"], m["gy"]
-                if self.which == "C02":
-                    self.chk_fw(line, op + "_fw", v[0], DOC2[op](a, b), F("fw_" + op, a, b))
-                else:
-                    ha, hb = fd_step(a, m["keepa"]), fd_step(b, m["keepb"])
-                    qa = fdq(vals[i + 1], vals[i + 2], ha)
-                    qb = fdq(vals[i + 3], vals[i + 4], hb)
-                    i += 4
-                    da = dfd(lambda t: DOC2[op](t, b), a, m["keepa"])
-                    db = dfd(lambda t: DOC2[op](a, t), b, m["keepb"])
-                    self.chk_bw(line, op + "_bw (ga)", v[1], None if qa is None else g * qa, None if da is None else g * da,
-                                F("bw_%s_a" % op, a, b, v[0], g), "a=%r b=%r gy=%r" % (a, b, g))
-                    self.chk_bw(line, op + "_bw (gb)", v[2], None if qb is None else g * qb, None if db is None else g * db,
-                                F("bw_%s_b" % op, a, b, v[0], g), "a=%r b=%r gy=%r" % (a, b, g))
-            elif k == "n":
-                x, kk, g = m["x"], m["k"], m["gy"]
-                if self.which == "C02":
-                    self.chk_fw(line, "pown_fw", v[0], doc_pown(x, kk), F("fw_pown", x, kk), tol_ulps=8.0)
-                else:
-                    h = fd_step(x, True)
+        if k == "zero":
+            got = v[m["idx"]]
+            if got != got:
+                # D22: the kernels compute k*gy*y/x = 0/0 at x = 0; only the NaN is the registered finding
+                self.zero_findings.append({"case": line, "kernel": m["name"], "true_derivative": m["true"], "got": got})
+            elif abs(got - m["true"]) > 1e-6:
+                self.problem("C01", "%s%s at x = 0: wrong finite derivative" % (m["name"], tag), line, m["true"], got,
+                             "derivative of x^k at 0 (x^k is smooth there for k >= 1)")
+        elif k == "f1":
+            self.chk_fw(line, m["op"] + "_fw" + tag, v[0], DOC1[m["op"]](m["x"]), F("fw_" + m["op"], m["x"]),
+                        relative=m["op"] not in STABILISED)
+        elif k == "u":
+            op, x, g = m["op"], m["x"], m["gy"]
+            large = abs(x) >= 20 and op in ("sigmoid", "softplus", "tanh")
+            if self.which == "C02":
+                self.chk_fw(line, op + "_fw" + tag, v[0], DOC1[op](x), F("fw_" + op, x), stable=large, relative=op not in STABILISED)
+            else:
+                fd_impl = None
+                if abs(x) <= 1e4:
+                    h = fd_step(x, m["keep"])
                     q = fdq(vals[i + 1], vals[i + 2], h)
-                    i += 2
-                    d = dfd(lambda t: doc_pown(t, kk), x, True)
-                    self.chk_bw(line, "pown_bw", v[1], None if q is None else g * q, None if d is None else g * d,
-                                F("bw_pown", x, v[0], g, kk), "x=%r k=%d gy=%r" % (x, kk, g))
-            elif k == "fnx":
-                self.chk_fw(line, "pown_fw", v[0], doc_pown(m["x"], m["k"]), F("fw_pown", m["x"], m["k"]))
-            elif k in ("lse", "lsm", "sm", "sce"):
-                xs = m["xs"]
-                L = doc_lse(xs)
-                if k == "lse":
-                    exact = [L]
-                elif k == "lsm":
-                    exact = [x - L for x in xs]
-                elif k == "sm":
-                    exact = [math.exp(x - L) for x in xs]
-                else:
-                    exact = [-sum(t * (x - L) for t, x in zip(m["ts"], xs) if t != 0)]
-                if len(v) != len(exact):
-                    self.problem("C02", "%s returned %d values, expected %d" % (k, len(v), len(exact)), line, exact, v, "documented function")
-                else:
-                    mx = max(abs(x) for x in xs)
-                    spread = max(xs) - min(xs)
-                    nm0 = {"lse": "logsumexp", "lsm": "log_softmax", "sm": "softmax", "sce": "softmax_cross_entropy"}[k]
-                    for j, (got, ex) in enumerate(zip(v, exact)):
-                        nm = nm0 + "[%d]" % j
-                        if abs(ex) > FLT_MAX:
-                            continue
-                        st = self.stats
-                        st["fw_checked"] += 1
-                        if mx >= 20:
-                            st["stable_large_checked"] += 1
-                        nonfinite = got != got or abs(got) == INF
-                        strict = (4.0 + len(xs)) * ulp32(max(1.0, abs(ex)))
-                        err = INF if nonfinite else abs(got - ex)
-                        if not nonfinite:
-                            e = err / ulp32(max(1.0, abs(ex)))
-                            if e > st["max_softmax_strict_err_ulp"]:
-                                st["max_softmax_strict_err_ulp"] = round(e, 2)
-                                st["max_softmax_strict_err_at"] = "%s -> %s: got %r exact %r" % (line, nm, got, ex)
-                        if err <= strict:
-                            continue
-                        if nonfinite and spread > FLT_MAX:
-                            # D24: x_min - logsumexp(x) is not representable in float32
-                            self.known.append(("scalar-C02 :: softmax-family overflow spread>FLT_MAX :: %s -> %s = %r, exact %r"
-                                               % (line, nm, got, ex), line, ex, got))
-                        elif (not nonfinite) and k != "lse" and mx >= 8 and err <= (4.0 + len(xs)) * ulp32(max(1.0, abs(ex), mx)):
-                            # D23: finite, explained by the float32 rounding of logsumexp(x) (magnitude max|x_j|)
-                            self.known.append(("scalar-C02 :: softmax-family ulp large-logits :: %s -> %s = %r, exact %r (%.0f ulp of max(1,|exact|), max|x| = %g)"
-                                               % (line, nm, got, ex, err / ulp32(max(1.0, abs(ex))), mx), line, ex, got))
-                        elif nonfinite:
-                            self.problem("C02", "%s is not finite" % nm, line, ex, got, "documented function in double (finite result expected)")
-                        else:
-                            self.problem("C02", "%s deviates from the documented function by %.3g (%.1f ulp of max(1,|exact|); tolerance %.3g)"
-                                         % (nm, err, err / ulp32(max(1.0, abs(ex))), strict), line, ex, got, "documented function in double")
-            i += 1
+                    fd_impl = None if q is None else g * q
+                    used = 2
+                d = dfd(DOC1[op], x, m["keep"])
+                self.chk_bw(line, op + "_bw" + tag, v[1], fd_impl, None if d is None else g * d,
+                            F("bw_" + op, x, v[0], g), "x=%r gy=%r" % (x, g))
+        elif k == "c":
+            op, x, kk, g = m["op"], m["x"], m["k"], m["gy"]
+            if self.which == "C02":
+                # elu = k (e^x - 1) on x < 0: e^x enters the formula rounded to float32 (1 ulp of a libm / packet exp)
+                extra = 2.0 * abs(kk) * ulp32(m_exp(x)) if (op == "elu" and x < 0) else 0.0
+                self.chk_fw(line, op + "_fw" + tag, v[0], DOCC[op](x, kk), F("fw_" + op, x, kk),
+                            stable=(abs(x) >= 20 and op in ("elu", "prelu")), extra=extra)
+            else:
+                fd_impl = None
+                if abs(x) <= 1e4:
+                    h = fd_step(x, m["keep"])
+                    q = fdq(vals[i + 1], vals[i + 2], h)
+                    fd_impl = None if q is None else g * q
+                    used = 2
+                d = dfd(lambda t: DOCC[op](t, kk), x, m["keep"])
+                self.chk_bw(line, op + "_bw" + tag, v[1], fd_impl, None if d is None else g * d,
+                            F("bw_" + op, x, v[0], g, kk), "x=%r k=%r gy=%r" % (x, kk, g))
+        elif k == "s":
+            self.chk_fw(line, m["op"] + "_fw" + tag, v[0], DOCS[m["op"]](m["x"], m["k"]), F("fw_" + m["op"], m["x"], m["k"]))
+        elif k == "b":
+            op, a, b, g = m["op"], m["a"], m["b"], m["gy"]
+            if self.which == "C02":
+                self.chk_fw(line, op + "_fw" + tag, v[0], DOC2[op](a, b), F("fw_" + op, a, b))
+            else:
+                ha, hb = fd_step(a, m["keepa"]), fd_step(b, m["keepb"])
+                qa = fdq(vals[i + 1], vals[i + 2], ha)
+                qb = fdq(vals[i + 3], vals[i + 4], hb)
+                used = 4
+                da = dfd(lambda t: DOC2[op](t, b), a, m["keepa"])
+                db = dfd(lambda t: DOC2[op](a, t), b, m["keepb"])
+                self.chk_bw(line, op + "_bw (ga)" + tag, v[1], None if qa is None else g * qa, None if da is None else g * da,
+                            F("bw_%s_a" % op, a, b, v[0], g), "a=%r b=%r gy=%r" % (a, b, g))
+                self.chk_bw(line, op + "_bw (gb)" + tag, v[2], None if qb is None else g * qb, None if db is None else g * db,
+                            F("bw_%s_b" % op, a, b, v[0], g), "a=%r b=%r gy=%r" % (a, b, g))
+        elif k == "n":
+            x, kk, g = m["x"], m["k"], m["gy"]
+            if self.which == "C02":
+                self.chk_fw(line, "pown_fw" + tag, v[0], doc_pown(x, kk), F("fw_pown", x, kk))
+            else:
+                h = fd_step(x, True)
+                q = fdq(vals[i + 1], vals[i + 2], h)
+                used = 2
+                d = dfd(lambda t: doc_pown(t, kk), x, True)
+                self.chk_bw(line, "pown_bw" + tag, v[1], None if q is None else g * q, None if d is None else g * d,
+                            F("bw_pown", x, v[0], g, kk), "x=%r k=%d gy=%r" % (x, kk, g))
+        elif k == "fnx":
+            self.chk_fw(line, "pown_fw" + tag, v[0], doc_pown(m["x"], m["k"]), F("fw_pown", m["x"], m["k"]))
+        elif k in ("lse", "lsm", "sm", "sce"):
+            self.judge_softmax(line, m, v)
+        return used
+
+    def judge_softmax(self, line, m, v):
+        k = m["kind"]
+        xs = m["xs"]
+        L = doc_lse(xs)
+        if k == "lse":
+            exact = [L]
+        elif k == "lsm":
+            exact = [x - L for x in xs]
+        elif k == "sm":
+            exact = [math.exp(x - L) for x in xs]
+        else:
+            exact = [-sum(t * (x - L) for t, x in zip(m["ts"], xs) if t != 0)]
+        if len(v) != len(exact):
+            self.problem("C02", "%s returned %d values, expected %d" % (k, len(v), len(exact)), line, exact, v, "documented function")
+            return
+        mx = max(abs(x) for x in xs)
+        nm0 = {"lse": "logsumexp", "lsm": "log_softmax", "sm": "softmax", "sce": "softmax_cross_entropy"}[k]
+        for j, (got, ex) in enumerate(zip(v, exact)):
+            nm = nm0 + "[%d]" % j
+            if abs(ex) > FLT_MAX:
+                continue
+            st = self.stats
+            st["fw_checked"] += 1
+            if mx >= 20:
+                st["stable_large_checked"] += 1
+            nonfinite = got != got or abs(got) == INF
+            strict = (4.0 + len(xs)) * ulp32(max(1.0, abs(ex)))
+            err = INF if nonfinite else abs(got - ex)
+            if not nonfinite:
+                e = err / ulp32(max(1.0, abs(ex)))
+                if e > st["max_softmax_strict_err_ulp"]:
+                    st["max_softmax_strict_err_ulp"] = round(e, 2)
+                    st["max_softmax_strict_err_at"] = "%s -> %s: got %r exact %r" % (line, nm, got, ex)
+            if err <= strict:
+                continue
+            cls = known_softmax_class(k, xs, m.get("ts"), j, got, ex)
+            if cls == "D24":
+                self.known.append(("scalar-C02 :: softmax-family overflow spread>FLT_MAX :: %s -> %s = %r, exact %r"
+                                   % (line, nm, got, ex), line, ex, got))
+            elif cls == "D23":
+                self.known.append(("scalar-C02 :: softmax-family ulp large-logits :: %s -> %s = %r, exact %r (%.0f ulp of max(1,|exact|), max|x| = %g)"
+                                   % (line, nm, got, ex, err / ulp32(max(1.0, abs(ex))), mx), line, ex, got))
+            elif nonfinite:
+                self.problem("C02", "%s is not finite" % nm, line, ex, got, "documented function in double (finite result expected)")
+            else:
+                self.problem("C02", "%s deviates from the documented function by %.3g (%.1f ulp of max(1,|exact|); tolerance %.3g)"
+                             % (nm, err, err / ulp32(max(1.0, abs(ex))), strict), line, ex, got, "documented function in double")
+
+
+def known_softmax_class(k, xs, ts, j, got, ex):
+    """Does a softmax-family value `got` (component j of function k on the logits xs, exact value ex,
+    beyond the strict bound) belong to a REGISTERED finding class?  -> "D23", "D24" or None.
+    D24 (spread > FLT_MAX): log_softmax = x - logsumexp(x) overflows in the components j with
+      |x_j - logsumexp(x)| > FLT_MAX (they become -inf).  The code returns finite logsumexp and softmax
+      there and -inf is the correctly rounded log_softmax of such a component, so the class contains only
+      softmax_cross_entropy = -sum_j t_j * log_softmax_j: NaN when t_j = 0 on an overflowing component
+      (0 * -inf), +inf when every overflowing component has t_j > 0.
+    D23 (large logits differing by O(1)): logsumexp(x) is rounded to ulp(max|x|), an ABSOLUTE error
+      d <= (4+n) ulp(max|x|) of log_softmax and of softmax_cross_entropy with sum t = 1, hence a RELATIVE
+      error e^d - 1 of softmax = exp(log_softmax); measured for max|x| <= D23_MAX_LOGIT only."""
+    n = len(xs)
+    L = doc_lse(xs)
+    mx = max(abs(x) for x in xs)
+    nonfinite = got != got or abs(got) == INF
+    if nonfinite:
+        over = [i for i, x in enumerate(xs) if abs(x - L) > FLT_MAX]
+        if k != "sce" or not over:
+            return None
+        if any(ts[i] == 0 for i in over):
+            return "D24" if got != got else None
+        if all(ts[i] > 0 for i in over):
+            return "D24" if got == INF else None
+        return None
+    if k == "lse" or mx < 8:
+        return None
+    err = abs(got - ex)
+    d = (4.0 + n) * ulp32(max(1.0, min(mx, D23_MAX_LOGIT)))
+    if k == "sm":
+        bound = (4.0 + n) * ulp32(max(1.0, abs(ex))) + abs(ex) * math.expm1(d)
+    else:
+        bound = max(d, (4.0 + n) * ulp32(max(1.0, abs(ex))))
+    return "D23" if err <= bound else None
 
 
 # ----------------------------------------------------------------------------- entry point
@@ -651,6 +795,14 @@ def run_part(ctx, which):
     formulas = Formulas(table)
     cov["translator"] = {"source": os.path.join(pv.REPO, "primitiv/devices/naive/ops"), "definitions": len(table["defs"]),
                          "translation_errors": terrors}
+    import gen_scalar
+    inv = table.get("inventory") or {}
+    offenders = gen_scalar.inventory_offenders(inv) if inv else ["the translator wrote no inventory"]
+    cov["translator"]["inventory"] = {
+        "files_by_class": {c: sum(1 for f in inv.get("files", []) if f["class"] == c) for c in ("FElementwise", "FKernel", "FUnknown")},
+        "invocations_translated": "%d of %d" % (sum(f["invocations_translated"] for f in inv.get("files", [])), sum(f["invocations"] for f in inv.get("files", []))),
+        "macros": {n: c for n, c in inv.get("macros", [])}, "conditionals": inv.get("conditionals", []), "offenders": offenders,
+        "obligation": "Props/Properties_C01_inventory.v (Gen/ScalarInventory.v regenerated on this run)"}
     # 2. proofs against the regenerated definitions
     pid = "%s_scalar" % which
     res = pv.check_props(pid)
@@ -677,7 +829,8 @@ def run_part(ctx, which):
         outs = outs + ["<no output>"] * (len(run.cases) - len(outs))
     run.judge(outs)
     cov.update(run.stats)
-    cov["rule"] = ("cases = calls of Device::<op>_fw/_bw (Naive and Eigen) on single-element tensors over the smooth-domain grid of each "
+    cov["rule"] = ("cases = calls of Device::<op>_fw/_bw (Naive and Eigen) on 21-element tensors (16k+5: Eigen's packet body and scalar tail; element 0 and the "
+                   "most deviating element are both judged) over the smooth-domain grid of each "
                    "operator (negative/positive, near 0, |x| up to 1e4 / 3e38 for the stabilised functions) x constants x upstream gradients, "
                    "plus the finite-difference evaluations; " +
                    ("softmax family on lists with entries up to +-3e38" if which == "C02" else "backward compared with central finite differences"))
@@ -711,8 +864,8 @@ def run_part(ctx, which):
         for z in run.zero_findings[:12]:
             t = z["case"].split()
             kk = (" k=%s" % t[3]) if t[1] == "n" else (" k=%s" % t[4] if t[1] == "c" else " b=%s" % t[4])
-            w = "scalar-C01 :: %s at x=0%s: got %s expected %g (%s)" % (z["kernel"], kk, "NaN" if z["got"] != z["got"] else repr(z["got"]),
-                                                                    z["true_derivative"], z["case"])
+            assert z["got"] != z["got"]      # only the NaN is the registered finding (judge_case)
+            w = "scalar-C01 :: %s at x=0%s: got NaN expected %g (%s)" % (z["kernel"], kk, z["true_derivative"], z["case"])
             ctx.violation("scalar-zero", {"kind": "scalar-elementwise", "part": which, "case": z["case"], "witness": w,
                                           "theorem": "C01s_pown_bw_at_zero_refuted", "impl_driver": impl}, True, w)
         cov["known_finding_instances"] = len(run.zero_findings)
@@ -740,6 +893,12 @@ def run_part(ctx, which):
         ctx.violation("scalar-translator", {"kind": "translator", "errors": terrors,
                                             "witness": "scalar-%s :: untranslated %s" % (which, terrors[0])}, False,
                       "gen_scalar.py could not translate: %s" % terrors[:3])
+    if offenders:
+        # something in devices/naive/ops is neither translated nor on the reviewed list: the theorems about
+        # Gen/ScalarGen.v do not speak about it (for C01 the obligation Properties_C01_inventory.v breaks too)
+        ctx.violation("scalar-inventory", {"kind": "translator-inventory", "part": which, "offenders": offenders,
+                                           "witness": "scalar-%s :: inventory :: %s" % (which, offenders[0])}, False,
+                      "translate/gen_scalar.py does not account for everything in devices/naive/ops: %s" % "; ".join(offenders[:4]))
     axs = sorted({a for v in res["axioms"].values() for a in v})
     cov["axioms"] = axs
     for a in ("elementwise formulas are tied to the code by translate/gen_scalar.py (textual macro extraction + expression parser) on every run; "
@@ -747,10 +906,13 @@ def run_part(ctx, which):
               "std::pow(a,b) is modelled as exp(b ln a): derivative theorems for pow/pow_const_* assume a positive base; "
               "abs/prelu/elu/relu/lrelu/selu are differentiated on x <> 0; log, sqrt on x > 0; tan where cos x <> 0; "
               "divide* where the divisor <> 0; pown_bw and pow_const_r on x <> 0 (the kernels return NaN at x = 0, see findings)",
-              "float32 rounding is not part of the theorems (exact real arithmetic); the ulp statements are measured on the grid"):
+              "float32 rounding is not part of the theorems (exact real arithmetic); the ulp statements are measured on the grid",
+              "underflow: when |exact| < 2^-126 the result only has to lie within 2^-126 of it (gradual underflow and flush-to-zero both accepted); "
+              "Eigen's packet exp flushes results below FLT_MIN to zero where libm returns the denormal (absolute error <= 1.2e-38); "
+              "counted per run as underflow_range_results / flushed_to_zero"):
         if a not in ctx.assumptions:
             ctx.assumptions.append(a)
-    return {"ok": res["ok"] and not mine and not terrors, "proof_ok": res["ok"], "failed_theorems": res["failed"],
+    return {"ok": res["ok"] and not mine and not terrors and not offenders, "proof_ok": res["ok"], "failed_theorems": res["failed"],
             "problems": mine, "stats": run.stats, "seconds": round(time.time() - t0, 1)}
 
 
